@@ -43,6 +43,9 @@ def run(ck):
     # ... and under names that differ only in letter case
     CASEALIAS = {"a": "Mod", "b": "mod", "c": "MOD", "d": "mOd"}
     cases += [{"id": 2 * len(graphs) + i, "imports": g["imports"], "rename": CASEALIAS} for i, g in enumerate(graphs)]
+    # ... and with every module's last import standing after its export statement: code that never runs is compiled all the same,
+    # and a cycle or a missing module there is as much an error as anywhere else
+    cases += [{"id": 3 * len(graphs) + i, "imports": g["imports"], "late": True} for i, g in enumerate(graphs)]
     res = vlib.run_cases(ck, "modgraph", cases, nproc=12)
     ncyc = 0
     for ci, cs in enumerate(cases):
@@ -193,7 +196,11 @@ def run(ck):
     # graphs that mix module-map and file modules (file import enabled, import directory != working directory, decoys in the latter):
     # map modules resolve files from the import directory, file modules from their own directory, and the working directory never counts
     mixed = [("lib", "FROM-HELPER"), ("a", "FROM-LIB2"), ("e", "FROM-D"), ("nested/c", "FROM-D"), ("lib3", '["FROM-LIB2", "FROM-HELPER", "FROM-LIB2"]'),
-             ("helper", "FROM-HELPER"), ("d", "FROM-OUTER-D")]
+             ("helper", "FROM-HELPER"), ("d", "FROM-OUTER-D"),
+             # exports are immutable wherever the module came from; a copy of the module map modified afterwards leaves the original alone
+             ("@immut", '["immutable-map", "immutable-map", "immutable-array", "immutable-array", true, true]'),
+             ("@immut-write-file", "ERROR:not index-assignable"), ("@immut-write-file-array", "ERROR:not index-assignable"),
+             ("@copy-secret", "ERROR:module 'secret' not found"), ("@copy-kept", "FROM-LIB2")]
     mcases = [{"id": i, "main": m} for i, (m, _) in enumerate(mixed)]
     mres = vlib.run_cases(ck, "mixedimport", mcases, nproc=2, env={"VERIF_SCRATCH_DIR": ck.scratch})
     for c, (m, want) in zip(mcases, mixed):
@@ -201,6 +208,12 @@ def run(ck):
         ck.evaluations += 1
         if o.get("error") and "result" not in o:
             raise vlib.Infra("mixedimport driver: %s" % o["error"])
+        if want.startswith("ERROR:"):
+            if o.get("result") != "error" or want[6:] not in o.get("msg", ""):
+                ck.violation("mixed-import:" + m, "scenario %r must fail with %r, got %s %s" % (m, want[6:], o.get("result"), o.get("out") or o.get("msg")), {"case": c, "real": o})
+            else:
+                ck.traces += 1
+            continue
         if o.get("result") != "ok" or o.get("out", "").strip('"') != want.strip('"'):
             ck.violation("mixed-import:" + m, "main imports %r in a graph mixing module-map and file modules: expected %s, got %s %s" % (
                 m, want, o.get("result"), o.get("out") or o.get("msg")), {"case": c, "real": o})
